@@ -34,3 +34,21 @@ def c16_rvalue(inp, obligation):
     scale = max(abs(ref), 1e-12)
     bad = [] if abs(got - ref) <= 1e-8 * scale + 1e-12 else ["calculate_R_value_analytically = %r, integral of the product of the hats = %r" % (got, ref)]
     return bool(bad), {"point_i": pi, "domain_i": di, "point_j": pj, "domain_j": dj, "violations": bad}
+
+
+@handler("C16.masslumped")
+def c16_masslumped(inp, obligation):
+    """mass-lumped system matrix value of the real build_R_matrix against the Gram diagonal of the uniform hat basis (product of 2 h_k / 3, h_k = 2^-l_k)"""
+    from sparseSpACE.GridOperation import DensityEstimation
+    lv = [max(1, min(int(l), 12)) for l in inp["levelvec"]]
+    bad = []
+    for levels in [lv] + [[1] * len(lv), list(range(1, len(lv) + 1)), [3] * len(lv)]:
+        op = object.__new__(DensityEstimation)
+        op.masslumping, op.dim = True, len(levels)
+        got = float(DensityEstimation.build_R_matrix(op, list(levels)))
+        want = 1.0
+        for l in levels:
+            want *= 2.0 * 2.0 ** (-l) / 3.0
+        if abs(got - want) > 1e-12 * want:
+            bad.append("level vector %r: mass-lumped value %r, Gram diagonal %r" % (levels, got, want))
+    return bool(bad), {"violations": bad}
